@@ -1,6 +1,7 @@
 package tree
 
 import (
+	"regexp"
 	"strconv"
 	"strings"
 
@@ -135,15 +136,17 @@ func valueFromCommandText(commandText string) *variable.Value {
 		return variable.NewBoolean(false)
 	}
 
-	if commandText[0] == '+' { // see Antlr grammar, numbers don't start with + even though Go would be happy to parse them
-		return variable.NewString(commandText)
-	}
-	numberValue, err := strconv.ParseFloat(commandText, 64)
-	if err == nil {
-		return variable.NewNumber(numberValue)
+	// see Antlr grammar: numbers are decimal literals (optionally negative), even though Go would be happy to parse
+	// more than that (+5, 1e5, 0x10, 1_0, inf, nan, ...)
+	if commandNumberPattern.MatchString(commandText) {
+		if numberValue, err := strconv.ParseFloat(commandText, 64); err == nil {
+			return variable.NewNumber(numberValue)
+		}
 	}
 	return variable.NewString(commandText)
 }
+
+var commandNumberPattern = regexp.MustCompile(`^-?[0-9]+(\.[0-9]+)?$`)
 
 type CallStatement struct {
 	*FunctionCall
